@@ -47,6 +47,10 @@ REWRITE_RENAMES = [
     ("N3", ["u32", ":", ":", "from_le_bytes", "("], ["v_u32_from_le_bytes", "("]),
     ("N2", ["Box", "<", "dyn", "Error", ">"], ["VErr"]),
     ("N7", [".", "try_into", "(", ")"], [".", "v_try_into", "(", ")"]),
+    # N9: associated consts of the external field type (giving them a specification crashes Verus): wrapper
+    # fns whose external_body IS the original expression; their contracts (value 0 / 1) are Kani obligations
+    ("N9", ["Fp", ":", ":", "ZERO"], ["v_fp_zero", "(", ")"]),
+    ("N9", ["Fp", ":", ":", "ONE"], ["v_fp_one", "(", ")"]),
 ]
 
 class FnRecord:
@@ -628,6 +632,8 @@ def _invert(toks, emitter):
         elif t == "v_u32_from_le_bytes": out.extend(["u32", ":", ":", "from_le_bytes"])
         elif t == "VErr": out.extend(["Box", "<", "dyn", "Error", ">"])
         elif re.match(r"_v\d+$", t): out.append("_")
+        elif t in ("v_fp_zero", "v_fp_one") and toks[i + 1:i + 3] == ["(", ")"]:
+            out.extend(["Fp", ":", ":", "ZERO" if t == "v_fp_zero" else "ONE"]); i += 3; continue
         elif t == "vpanic" and toks[i + 1:i + 3] == ["(", ")"]:
             out.append("<PANIC>"); i += 3; continue
         elif re.match(r"fmt_lit_\d+$", t) and toks[i + 1:i + 3] == ["(", ")"]:
